@@ -16,7 +16,7 @@ var Faults = []string{
 	"sym-286", "sym-287", "dist-30", "dist-31",
 	"hlit-30", "hlit-31", "hdist-30", "hdist-31",
 	"incomplete-lit-unused", "incomplete-dist-unused", "empty-dist-used",
-	"one-dist-code-other-used",
+	"one-dist-code-other-used", "unassigned-dist-long",
 }
 
 // Faulty builds a stream with exactly one injected fault, optionally after
@@ -33,6 +33,9 @@ func Faulty(r *gen.Rand, fault string, before int) (stream []byte, validPrefixPl
 			s.Fixed(false, toks, true)
 		default:
 			o := CodeOpts{ExtraLit: r.Range(0, 285), ExtraDist: r.Range(5, 29), MaxLit: r.Range(9, 15), MaxDist: r.Range(5, 15), FullHLIT: r.Bool()}
+			if fault == "unassigned-dist-long" {
+				o.MaxDist, o.ExtraDist, o.Shape = 15, 29, []string{"deep", "random"}[r.Intn(2)]
+			}
 			lit, dist := LengthsFor(r, toks, o)
 			sp := NewDynSpec()
 			sp.LitLens, sp.DistLens = lit, dist
@@ -96,6 +99,41 @@ func Faulty(r *gen.Rand, fault string, before int) (stream []byte, validPrefixPl
 		}
 		toks := append(lead, Match(4, 1), Match(5, 2), Token{Kind: TMatchOnes, Len: r.Range(3, 258)})
 		dyn(toks, func(sp *DynSpec) { makeIncomplete(r, sp.DistLens) }, true)
+	case "unassigned-dist-long":
+		// an incomplete distance code with several code lengths above 10 bits under
+		// one 10-bit prefix; the stream uses the first unassigned codeword of that
+		// group. A preceding block (before >= 1) with a complete deep distance code
+		// fills the same long-code table slots, so stale entries would be hit.
+		if have == 0 {
+			lead = append(lead, Lit(1), Lit(2), Lit(3))
+		}
+		k := r.Range(11, 14)
+		var dl []int
+		for l := 1; l <= k; l++ {
+			dl = append(dl, l)
+		}
+		dl = append(dl, r.Range(k, 15)) // mixed lengths in the long group, one codeword missing
+		perm := r.Perm(30)
+		distLens := make([]int, 30)
+		for i2, l := range dl {
+			distLens[perm[i2]] = l
+		}
+		// use only distances whose symbols have codes and are reachable
+		var ok []int
+		for sym, l := range distLens {
+			if l > 0 && DistBase[sym] <= have+len(lead) {
+				ok = append(ok, sym)
+			}
+		}
+		toks := append([]Token(nil), lead...)
+		for _, sym := range ok {
+			toks = append(toks, Match(r.Range(3, 20), DistBase[sym]))
+		}
+		toks = append(toks, Token{Kind: TMatchUnassigned, Len: r.Range(3, 258)})
+		lit, _ := LengthsFor(r, toks, CodeOpts{MaxLit: r.Range(9, 15)})
+		sp := NewDynSpec()
+		sp.LitLens, sp.DistLens = lit, distLens
+		s.Dynamic(final, toks, sp, true)
 	case "one-dist-code-other-used":
 		// one-code distance tree (length 1, code 0); the stream uses code "1"
 		if have == 0 {
